@@ -81,6 +81,19 @@ def app(environ, start_response):
             os.replace(BIGFILE + ".tmp", BIGFILE)
         start_response("200 OK", [("Content-Length", str(total))])
         return environ["wsgi.file_wrapper"](open(BIGFILE, "rb"), 65536)
+    if path in ("/slow-chunked", "/slow-cl"):
+        # a response that takes longer than the keep-alive time of the battery server (1 s): that time bounds the wait for the
+        # NEXT request, not an exchange under way
+        parts = [b"first-part;" * 50, b"second-part;" * 50]
+        hdrs = [("Content-Type", "text/plain")]
+        if path == "/slow-cl":
+            hdrs.append(("Content-Length", str(sum(map(len, parts)))))
+        start_response("200 OK", hdrs)
+        def gen():
+            yield parts[0]
+            time.sleep(2.2)
+            yield parts[1]
+        return gen()
     return reply("no such path", "404 Not Found")
 '''
 
@@ -96,8 +109,8 @@ CLASSES = ("sync", "gthread", "gevent", "eventlet")
 
 
 class BatteryServer(R.Server):
-    def __init__(self, cls, extra=None, bind="unix"):
-        R.Server.__init__(self, worker_class=cls, workers=1, graceful=3, bind=bind, keepalive=5, timeout=30, extra=extra)
+    def __init__(self, cls, extra=None, bind="unix", keepalive=5):
+        R.Server.__init__(self, worker_class=cls, workers=1, graceful=3, bind=bind, keepalive=keepalive, timeout=30, extra=extra)
         if extra and "loglevel" in extra:
             self.cli_loglevel = None                # the error-log level comes from the configuration file
         with open(os.path.join(self.dir, "gvapp.py"), "w") as fh:
@@ -198,9 +211,31 @@ def part_bodies(cls):
 def part_responses(cls):
     """-> list of failures (C02)"""
     fails = []
-    srv = BatteryServer(cls)
+    srv = BatteryServer(cls, keepalive=1)
     try:
         srv.start()
+        # slow responses (longer than the keep-alive time), followed by one more request on the same connection
+        slow_want = b"first-part;" * 50 + b"second-part;" * 50
+        for path in ("/slow-chunked", "/slow-cl"):
+            c = srv.conn(timeout=15)
+            what = "%s worker, %s (the response takes 2.2 s, keepalive is 1 s)" % (cls, path)
+            try:
+                c.sendall(("GET %s HTTP/1.1\r\nHost: x\r\n\r\n" % path).encode())
+                st, hd, body, complete, err = G.read_response(c, 12)
+                if st != 200 or not complete or body != slow_want:
+                    fails.append("%s: the client received status %r, %d of %d body bytes, %s%s"
+                                 % (what, st, len(body), len(slow_want), "complete framing" if complete else "framing CUT SHORT",
+                                    (" (%s)" % err) if err else ""))
+                elif hd.get("connection", "").lower() != "close" and cls != "sync":
+                    c.sendall(b"GET /small HTTP/1.1\r\nHost: x\r\nConnection: close\r\n\r\n")
+                    st2, hd2, body2, complete2, err2 = G.read_response(c, 8)
+                    if st2 != 200 or not complete2 or not body2.startswith(b"ok pid="):
+                        fails.append("%s: the next request on the same connection was answered with status %r body %r%s"
+                                     % (what, st2, body2[:60], (" (%s)" % err2) if err2 else ""))
+            except OSError as e:
+                fails.append("%s: %s" % (what, type(e).__name__))
+            finally:
+                c.close()
         for path in ("/big-cl", "/big-chunked", "/big-write", "/big-file"):
             for second in (False, True):
                 if second and cls == "sync":
@@ -309,6 +344,37 @@ def part_hostile(cls):
                 fails.append("%s: the worker did not survive (pid %s -> %s)" % (what, pid0, now.get("pid")))
                 pid0 = now.get("pid")
             base = now
+        # interrupted by a disconnect: the client resets the connection while a large response is being written, or sends a
+        # truncated upload and leaves without reading the answer - the worker keeps running (a write to a dead peer is an
+        # error to handle, not a signal to die of)
+        import struct
+        for name, data in [("reset while /big-chunked is being written", b"GET /big-chunked HTTP/1.1\r\nHost: x\r\n\r\n"),
+                           ("reset while /big-write is being written", b"GET /big-write HTTP/1.1\r\nHost: x\r\n\r\n"),
+                           ("reset while /big-file is being written", b"GET /big-file HTTP/1.1\r\nHost: x\r\n\r\n"),
+                           ("truncated upload, client gone before the answer",
+                            b"POST /echo-readn HTTP/1.1\r\nHost: x\r\nContent-Length: 10\r\n\r\nabc")]:
+            c = srv.conn(timeout=8)
+            try:
+                c.sendall(data)
+                if "reset" in name:
+                    c.recv(4096)                   # the response has begun
+                c.setsockopt(socket.SOL_SOCKET, socket.SO_LINGER, struct.pack("ii", 1, 0))
+            except OSError:
+                pass
+            c.close()
+            time.sleep(0.4)
+            now = calls()
+            what = "%s worker, %s" % (cls, name)
+            if now is None:
+                time.sleep(1.5)                    # (a replacement worker may be booting)
+                now = calls()
+            if now is None:
+                fails.append("%s: afterwards the server does not answer" % what)
+                break
+            if now.get("pid") != pid0:
+                fails.append("%s: the worker did not survive (pid %s -> %s); log: %s"
+                             % (what, pid0, now.get("pid"), [l for l in srv.read_log().splitlines() if "Worker" in l or "SIG" in l][-2:]))
+                pid0 = now.get("pid")
     except Exception as e:
         fails.append("harness: %s: %s | %s" % (type(e).__name__, e, srv.read_log()[-500:]))
     finally:
